@@ -365,18 +365,6 @@ def main():
                             discharged.remove(ob)
                             failed_undecided.append(ob)
                             notes.append("obligation %s is seed-dependent (fails with smt.random_seed=%d)" % (ob, extra_seed))
-            # retry undecided ones once with a larger budget and another seed
-            if failed_undecided:
-                v2 = run_verus(unit_path, prop.get("verify_modules"), rl * 4, seed + 7919)
-                still = []
-                for ob in failed_undecided:
-                    e2 = v2["breakdown"].get(ob)
-                    if e2 and e2["success"]:
-                        discharged.append(ob)
-                        notes.append("obligation %s needed rlimit x4" % ob)
-                    else:
-                        still.append(ob)
-                failed_undecided = still
             for it_ in weave_report.get("items", []):
                 if it_.get("anchor_lost"):
                     ob = it_.get("obligation")
@@ -406,6 +394,25 @@ def main():
                         failed_real.remove(fr)
                         failed_undecided.append(fr["obligation"])
                         notes.append("obligation %s failed although its source item is unchanged (not attributable to the code): %s" % (fr["obligation"], (fr["messages"][0][:200] if fr["messages"] else "")))
+            # Retry what is not attributable to the code (resource limit, or a failure of an UNCHANGED function): other solver
+            # seeds and a larger budget.  A proof found under any seed is a proof; only what never verifies stays undecided.
+            lost_now = set(it_.get("obligation") for it_ in weave_report.get("items", []) if it_.get("anchor_lost"))
+            for k_, (mult_, sd_) in enumerate(((4, seed + 7919), (2, seed + 104729), (4, seed + 1299709))):
+                # (an EDITED function that fails gets two of these retries as well before it is blamed: a flaky proof must not
+                #  turn a harmless edit into an alarm, and a real violation fails under every seed)
+                todo = [ob for ob in failed_undecided if ob not in lost_now] + ([fr["obligation"] for fr in failed_real] if k_ < 2 else [])
+                if not todo:
+                    break
+                v2 = run_verus(unit_path, prop.get("verify_modules"), rl * mult_, sd_)
+                verus.setdefault("retries", []).append({"seed": sd_, "rlimit": rl * mult_, "wall_s": v2["wall_s"]})
+                for ob in todo:
+                    e2 = v2["breakdown"].get(ob)
+                    if e2 and e2["success"]:
+                        if ob in failed_undecided:
+                            failed_undecided.remove(ob)
+                        failed_real[:] = [fr for fr in failed_real if fr["obligation"] != ob]
+                        discharged.append(ob)
+                        notes.append("obligation %s: discharged with smt.random_seed=%d, rlimit x%d (not with the first seed)" % (ob, sd_ % 1000000, mult_))
             if missing:
                 undecided.append("obligations not reported by Verus (item renamed or removed?): " + ", ".join(missing))
             lost_obs = [it_.get("obligation") for it_ in weave_report.get("items", []) if it_.get("anchor_lost")]
